@@ -736,6 +736,12 @@ def run_impl(ops, policy=SESSION, limits=None, extra=""):
         LAST_RUN["max_latency"] = run.max_latency
         LAST_RUN["fdcounts"] = list(run.fdcounts)
         LAST_RUN["dirty"] = set(run.dirty)
+        if died is None:
+            # libdbus' own argument checks abort the process unless DBUS_FATAL_WARNINGS=0 (as it is for the daemons started here): a
+            # tripped check is an assertion failure of the daemon all the same
+            tripped = [l for l in run.d.stderr().splitlines() if ("assertion" in l and "failed" in l) or "were incorrect" in l]
+            if tripped:
+                died = "a libdbus check was tripped (fatal with default settings): " + tripped[0][:400]
         return steps, died, dict(run.unique)
     finally:
         run.stop()
